@@ -35,6 +35,7 @@ ATOMS = [('a', [], ''), ('x+y', [], ''), (' ', [], ''), ('1', [], ''), ('=', [],
          ('\\cup[', ['cup'], 'zero-op'), ('\\in [0,1)', ['in'], 'zero-op'), ('\\cap ]', ['cap'], 'zero-op'),
          ('\\infty)', ['infty'], 'zero-op'), ('\\notin(', ['notin'], 'zero-op'), ('\\in\n[a', ['in'], 'zero-op'),
          ('\\cup{a}', ['cup'], 'zero-op'),
+         (' [0,1)', [], 'bracket'), ('\n[a', [], 'bracket'), ('\t(b]', [], 'bracket'),
          ('\\text{ a [ b }', ['text'], 'cmd'), ('\\mbox{(}', ['mbox'], 'cmd'),
          ('\\\\', [], ''), ('%c]$\n', [], 'comment'), ('\\,', [], ''), ('\\{', [], ''), ('\\|', [], ''),
          # an ordinary command directly followed by another command / a bare token instead of a group
@@ -62,14 +63,22 @@ CONTEXTS = [
 ]
 
 
+import re
+AFTER_ARGS_RE = re.compile(r'\[|[ \t]*\n?[ \t]*\{')
+
+
 def render_body(atoms):
     """atoms: list of (src, cmds, hazard) -> body source with the 'not directly after a command' rule enforced."""
     out = ''
     cmds = []
     cmd_end = None        # offset right after the last ordinary/sizing command, while only blanks followed it
     alpha_end = False     # the last command ends in its letters (a following letter would extend the name)
+    after_args = False    # the last command is an ordinary one that ends with a brace argument
     for src, cs, hz in atoms:
-        if cmd_end is not None and G.ATTACH_RE.match(out[cmd_end:] + src):
+        # a command NAME takes a bracket or brace group across blanks; behind its last brace argument only a brace group
+        # (across blanks) or an ADJACENT bracket group attaches, so "\\frac{a}{b} [0,1)" is plain text
+        rx = AFTER_ARGS_RE if (cmd_end is not None and after_args) else G.ATTACH_RE
+        if cmd_end is not None and rx.match(out[cmd_end:] + src):
             out += '.'
             cmd_end = None
             alpha_end = False
@@ -80,9 +89,11 @@ def render_body(atoms):
         if hz in ('cmd', 'sizing'):
             cmd_end = len(out)
             alpha_end = False
+            after_args = hz == 'cmd' and src.endswith('}')
         elif hz == 'cmd0':
             cmd_end = len(out)
             alpha_end = True
+            after_args = False
         else:
             if cmd_end is not None and (out[cmd_end:].strip(' \t\n') != ''):
                 cmd_end = None
